@@ -1,23 +1,1215 @@
 package main
 
+// C03 — transaction and block identity commit to all consensus content.
+//
+// Generates transactions of every input kind (issuance with asset definition, spend, veto,
+// coinbase, nil typed input) and output kind (original, vote, unspendable/BCRP, unknown asset
+// version) with state data, vote keys, arguments and 0-5 suffix bytes on every suffix field,
+// block headers (witness, sup links) and small blocks, all from c.Rng, and
+//   * the direct oracle (implementation only): for EVERY single-field mutation of the value
+//     (rebuilt from scratch, so no cached id or asset id survives) the canonical dump of the
+//     fields the property lists is compared before/after: dump changed => Tx.ID must change
+//     (class=id-not-committing); dump unchanged (arguments, witness suffixes, SerializedSize
+//     only) => Tx.ID, InputIDs, SpentOutputIDs, ResultIds must all stay
+//     (class=id-depends-on-witness).  A change that stays invisible only because the output is
+//     unspendable (program starts with OP_FAIL) is class=retirement-data-not-committed.
+//     Across the whole run, two different dumps must never share an id.  Headers: version,
+//     height, previous hash, timestamp, merkle root must change Hash(); witness and sup links
+//     must not.  Blocks: replacing, swapping, removing, duplicating a transaction must change
+//     the hash of the header carrying TxMerkleRoot(txs).
+//   * the correspondence: Tx.ID, every InputID, SpentOutputID, the mux id and every ResultId of
+//     a budgeted sample (and of one random mutant of each) and BlockHeader.Hash() are compared
+//     bit-exactly with the Coq model (C03/Model.v) run with the executable SHA3-256.
+
 import (
+	"encoding/hex"
 	"fmt"
+	"hash/fnv"
+	"strings"
 
 	"github.com/bytom/bytom/protocol/bc"
 	"github.com/bytom/bytom/protocol/bc/types"
+	. "verifharness/hlib"
 )
 
-func main() {
-	a := bc.AssetID{V0: 1}
-	mk := func(prog []byte, st [][]byte) bc.Hash {
-		in := types.NewSpendInput(nil, bc.Hash{V0: 9}, a, 10, 0, []byte{0x51}, nil)
-		out := types.NewOriginalTxOutput(a, 10, prog, st)
-		tx := types.NewTx(types.TxData{Version: 1, Inputs: []*types.TxInput{in}, Outputs: []*types.TxOutput{out}})
-		return tx.ID
+func main() { Main("C03", run, nil) }
+
+func hk(s string) string {
+	h := fnv.New64a()
+	h.Write([]byte(s))
+	return fmt.Sprintf("%d:%x", len(s), h.Sum64())
+}
+
+// ---------------------------------------------------------------- generator
+
+type gen struct {
+	rng   *Rng
+	small bool // short values (model-evaluated cases)
+}
+
+func (g *gen) bytes(max int) []byte {
+	r := g.rng
+	switch x := r.Intn(100); {
+	case x < 10:
+		return nil
+	case x < 16:
+		return []byte{}
+	case x < 95 || g.small:
+		return r.Bytes(1 + r.Intn(max))
+	default:
+		return r.Bytes(120 + r.Intn(20)) // around the 1-byte/2-byte length prefix boundary
 	}
-	h1 := mk([]byte{0x6a}, nil)
-	h2 := mk([]byte{0x6a, 0x00}, nil)
-	h3 := mk([]byte{0x6a, 0x04, 'b', 'c', 'r', 'p', 0x01, 0x01, 0x01, 0x51}, nil)
-	h4 := mk([]byte{0x6a, 0x04, 'b', 'c', 'r', 'p', 0x01, 0x01, 0x01, 0x52}, [][]byte{{1}})
-	fmt.Println(h1.String(), h2.String(), h3.String(), h4.String())
+}
+
+func (g *gen) suffix() []byte {
+	r := g.rng
+	switch x := r.Intn(100); {
+	case x < 50:
+		return nil
+	case x < 55:
+		return []byte{}
+	default:
+		return r.Bytes(1 + r.Intn(5))
+	}
+}
+
+func (g *gen) list() [][]byte {
+	r := g.rng
+	switch x := r.Intn(100); {
+	case x < 30:
+		return nil
+	case x < 36:
+		return [][]byte{}
+	default:
+		n := 1 + r.Intn(3)
+		l := make([][]byte, n)
+		for i := range l {
+			l[i] = g.bytes(10)
+		}
+		return l
+	}
+}
+
+var boundaries = []uint64{0, 1, 2, 127, 128, 255, 256, 65535, 65536, 1<<31 - 1, 1 << 31, 1<<32 - 1, 1 << 32,
+	1<<56 - 1, 1 << 56, 1<<63 - 1, 1 << 63, 1<<64 - 2, 1<<64 - 1}
+
+// any uint64: writeForHash writes 8 bytes, there is no 63-bit limit in MapTx
+func (g *gen) u64() uint64 {
+	r := g.rng
+	switch x := r.Intn(100); {
+	case x < 30:
+		return boundaries[r.Intn(len(boundaries))]
+	case x < 60:
+		return uint64(r.Intn(1000))
+	default:
+		return r.Next() >> uint(r.Intn(64))
+	}
+}
+
+func (g *gen) hash() bc.Hash {
+	var b [32]byte
+	if g.rng.Chance(6) {
+		return bc.Hash{}
+	}
+	copy(b[:], g.rng.Bytes(32))
+	return bc.NewHash(b)
+}
+
+func (g *gen) assetID() *bc.AssetID {
+	if g.rng.Chance(15) {
+		a := bc.AssetID{V0: ^uint64(0), V1: ^uint64(0), V2: ^uint64(0), V3: ^uint64(0)} // BTM
+		return &a
+	}
+	a := bc.AssetID(g.hash())
+	return &a
+}
+
+// control program: mostly spendable, sometimes unspendable (OP_FAIL first), sometimes a BCRP registration
+func (g *gen) program(allowFail bool) []byte {
+	r := g.rng
+	if allowFail && r.Chance(12) {
+		switch r.Intn(3) {
+		case 0:
+			return []byte{0x6a}
+		case 1:
+			return append([]byte{0x6a}, r.Bytes(1+r.Intn(8))...)
+		default:
+			c := r.Bytes(1 + r.Intn(6))
+			p := []byte{0x6a, 0x04, 'b', 'c', 'r', 'p', 0x01, 0x01, byte(len(c))}
+			return append(p, c...)
+		}
+	}
+	p := g.bytes(24)
+	if len(p) > 0 && p[0] == 0x6a && !(allowFail && r.Chance(30)) {
+		p[0] = 0x6b
+	}
+	return p
+}
+
+func (g *gen) spendCommitment() types.SpendCommitment {
+	sc := types.SpendCommitment{
+		AssetAmount:    bc.AssetAmount{AssetId: g.assetID(), Amount: g.u64()},
+		SourceID:       g.hash(),
+		SourcePosition: g.u64(),
+		VMVersion:      1,
+		ControlProgram: g.program(true),
+		StateData:      g.list(),
+	}
+	if g.rng.Chance(15) {
+		sc.VMVersion = g.u64()
+	}
+	return sc
+}
+
+// kinds: 0 issuance 1 spend 2 coinbase 3 veto 4 nil typed input
+func (g *gen) input(kind int) *types.TxInput {
+	in := &types.TxInput{AssetVersion: 1, CommitmentSuffix: g.suffix(), WitnessSuffix: g.suffix()}
+	if g.rng.Chance(5) {
+		in.AssetVersion = g.u64()
+	}
+	switch kind {
+	case 0:
+		ii := &types.IssuanceInput{Nonce: g.bytes(12), Amount: g.u64(), AssetDefinition: g.bytes(24),
+			VMVersion: 1, IssuanceProgram: g.bytes(24), Arguments: g.list()}
+		if g.rng.Chance(25) {
+			ii.VMVersion = g.u64()
+		}
+		in.TypedInput = ii
+	case 1:
+		in.TypedInput = &types.SpendInput{SpendCommitmentSuffix: g.suffix(), Arguments: g.list(), SpendCommitment: g.spendCommitment()}
+	case 2:
+		in.TypedInput = &types.CoinbaseInput{Arbitrary: g.bytes(16)}
+	case 3:
+		in.TypedInput = &types.VetoInput{VetoCommitmentSuffix: g.suffix(), Arguments: g.list(), Vote: g.bytes(64), SpendCommitment: g.spendCommitment()}
+	default:
+		in.AssetVersion = 2
+	}
+	return in
+}
+
+var originalTyped = types.NewOriginalTxOutput(bc.AssetID{}, 0, nil, nil).TypedOutput
+
+func (g *gen) output() *types.TxOutput {
+	r := g.rng
+	out := &types.TxOutput{AssetVersion: 1, CommitmentSuffix: g.suffix()}
+	if r.Chance(40) {
+		out.TypedOutput = &types.VoteOutput{Vote: g.bytes(64)}
+	} else {
+		out.TypedOutput = originalTyped
+	}
+	if r.Chance(4) { // unknown asset version as decoded: no commitment at all
+		out.AssetVersion = 2 + uint64(r.Intn(5))
+		return out
+	}
+	out.OutputCommitment = types.OutputCommitment{AssetAmount: bc.AssetAmount{AssetId: g.assetID(), Amount: g.u64()},
+		VMVersion: 1, ControlProgram: g.program(true), StateData: g.list()}
+	if r.Chance(15) {
+		out.VMVersion = g.u64()
+	}
+	return out
+}
+
+func (g *gen) tx() *types.TxData {
+	r := g.rng
+	tx := &types.TxData{Version: 1, TimeRange: g.u64(), SerializedSize: g.u64()}
+	if r.Chance(35) {
+		tx.Version = g.u64()
+	}
+	nin, nout := r.Intn(4), 1+r.Intn(3)
+	if !g.small {
+		nin, nout = r.Intn(6), 1+r.Intn(5)
+		if r.Chance(2) {
+			nin, nout = 20+r.Intn(120), 100+r.Intn(60) // 2-byte counts in mux and header
+		}
+	}
+	if r.Chance(5) {
+		nout = 0
+	}
+	for i := 0; i < nin; i++ {
+		k := r.Intn(4)
+		if k == 0 && g.small && r.Chance(50) { // issuances cost five SHA3 evaluations in the model
+			k = 1
+		}
+		if r.Chance(1) {
+			k = 4
+		}
+		if i > 0 && r.Chance(6) { // the same input twice
+			tx.Inputs = append(tx.Inputs, cloneInput(tx.Inputs[i-1]))
+			continue
+		}
+		tx.Inputs = append(tx.Inputs, g.input(k))
+	}
+	for i := 0; i < nout; i++ {
+		if i > 0 && r.Chance(6) {
+			tx.Outputs = append(tx.Outputs, cloneOutput(tx.Outputs[i-1]))
+			continue
+		}
+		tx.Outputs = append(tx.Outputs, g.output())
+	}
+	return tx
+}
+
+func (g *gen) supLink() *types.SupLink {
+	sl := &types.SupLink{SourceHeight: g.u64(), SourceHash: g.hash()}
+	for i := range sl.Signatures {
+		if g.rng.Chance(40) {
+			sl.Signatures[i] = g.rng.Bytes(64)
+		}
+	}
+	return sl
+}
+
+func (g *gen) header() *types.BlockHeader {
+	r := g.rng
+	bh := &types.BlockHeader{Version: g.u64(), Height: g.u64(), PreviousBlockHash: g.hash(), Timestamp: g.u64()}
+	if r.Chance(50) {
+		bh.Version = 1
+	}
+	bh.TransactionsMerkleRoot = g.hash()
+	if r.Chance(80) {
+		bh.BlockWitness = r.Bytes(64)
+	}
+	for i, n := 0, r.Intn(4); i < n; i++ {
+		bh.SupLinks = append(bh.SupLinks, g.supLink())
+	}
+	return bh
+}
+
+// ---------------------------------------------------------------- deep copies (fresh structs: no cached ids)
+
+func cp(b []byte) []byte {
+	if b == nil {
+		return nil
+	}
+	return append([]byte{}, b...)
+}
+func cpl(l [][]byte) [][]byte {
+	if l == nil {
+		return nil
+	}
+	r := make([][]byte, len(l))
+	for i := range l {
+		r[i] = cp(l[i])
+	}
+	return r
+}
+func cpAsset(a *bc.AssetID) *bc.AssetID {
+	if a == nil {
+		return nil
+	}
+	b := *a
+	return &b
+}
+func cloneSC(sc types.SpendCommitment) types.SpendCommitment {
+	return types.SpendCommitment{AssetAmount: bc.AssetAmount{AssetId: cpAsset(sc.AssetId), Amount: sc.Amount},
+		SourceID: sc.SourceID, SourcePosition: sc.SourcePosition, VMVersion: sc.VMVersion,
+		ControlProgram: cp(sc.ControlProgram), StateData: cpl(sc.StateData)}
+}
+func cloneInput(in *types.TxInput) *types.TxInput {
+	r := &types.TxInput{AssetVersion: in.AssetVersion, CommitmentSuffix: cp(in.CommitmentSuffix), WitnessSuffix: cp(in.WitnessSuffix)}
+	switch t := in.TypedInput.(type) {
+	case *types.IssuanceInput:
+		r.TypedInput = &types.IssuanceInput{Nonce: cp(t.Nonce), Amount: t.Amount, AssetDefinition: cp(t.AssetDefinition),
+			VMVersion: t.VMVersion, IssuanceProgram: cp(t.IssuanceProgram), Arguments: cpl(t.Arguments)}
+	case *types.SpendInput:
+		r.TypedInput = &types.SpendInput{SpendCommitmentSuffix: cp(t.SpendCommitmentSuffix), Arguments: cpl(t.Arguments), SpendCommitment: cloneSC(t.SpendCommitment)}
+	case *types.CoinbaseInput:
+		r.TypedInput = &types.CoinbaseInput{Arbitrary: cp(t.Arbitrary)}
+	case *types.VetoInput:
+		r.TypedInput = &types.VetoInput{VetoCommitmentSuffix: cp(t.VetoCommitmentSuffix), Arguments: cpl(t.Arguments), Vote: cp(t.Vote), SpendCommitment: cloneSC(t.SpendCommitment)}
+	}
+	return r
+}
+func cloneOutput(o *types.TxOutput) *types.TxOutput {
+	r := &types.TxOutput{AssetVersion: o.AssetVersion, CommitmentSuffix: cp(o.CommitmentSuffix)}
+	r.OutputCommitment = types.OutputCommitment{AssetAmount: bc.AssetAmount{AssetId: cpAsset(o.AssetId), Amount: o.Amount},
+		VMVersion: o.VMVersion, ControlProgram: cp(o.ControlProgram), StateData: cpl(o.StateData)}
+	if v, ok := o.TypedOutput.(*types.VoteOutput); ok {
+		r.TypedOutput = &types.VoteOutput{Vote: cp(v.Vote)}
+	} else {
+		r.TypedOutput = originalTyped
+	}
+	return r
+}
+func cloneTx(tx *types.TxData) *types.TxData {
+	r := &types.TxData{Version: tx.Version, SerializedSize: tx.SerializedSize, TimeRange: tx.TimeRange}
+	for _, in := range tx.Inputs {
+		r.Inputs = append(r.Inputs, cloneInput(in))
+	}
+	for _, o := range tx.Outputs {
+		r.Outputs = append(r.Outputs, cloneOutput(o))
+	}
+	return r
+}
+func cloneHeader(bh *types.BlockHeader) *types.BlockHeader {
+	r := *bh
+	r.BlockWitness = cp(bh.BlockWitness)
+	r.SupLinks = nil
+	for _, sl := range bh.SupLinks {
+		c := *sl
+		for i := range c.Signatures {
+			c.Signatures[i] = cp(sl.Signatures[i])
+		}
+		r.SupLinks = append(r.SupLinks, &c)
+	}
+	return &r
+}
+
+// ---------------------------------------------------------------- Coq literals
+
+func cB(b []byte) string {
+	if len(b) == 0 {
+		return "[]"
+	}
+	var sb strings.Builder
+	fmt.Fprintf(&sb, "(W %d [", len(b))
+	for i := 0; i < len(b); i += 7 {
+		j := i + 7
+		if j > len(b) {
+			j = len(b)
+		}
+		if i > 0 {
+			sb.WriteString(";")
+		}
+		sb.WriteString("0x" + hex.EncodeToString(b[i:j]))
+	}
+	sb.WriteString("]%uint63)")
+	return sb.String()
+}
+func cBL(l [][]byte) string {
+	s := make([]string, len(l))
+	for i, b := range l {
+		s[i] = cB(b)
+	}
+	return "[" + strings.Join(s, "; ") + "]"
+}
+func cHash(h bc.Hash) string { return cB(h.Bytes()) }
+func assetBytes(a *bc.AssetID) []byte {
+	if a == nil {
+		return make([]byte, 32)
+	}
+	return a.Bytes()
+}
+func cSC(sc *types.SpendCommitment) string {
+	return fmt.Sprintf("(mkSC %s %s %d %d %d %s %s)", cHash(sc.SourceID), cB(assetBytes(sc.AssetId)), sc.Amount,
+		sc.SourcePosition, sc.VMVersion, cB(sc.ControlProgram), cBL(sc.StateData))
+}
+func cInput(in *types.TxInput) string {
+	ty := "None"
+	switch t := in.TypedInput.(type) {
+	case *types.IssuanceInput:
+		ty = fmt.Sprintf("(Some (Issuance %s %d %s %d %s %s))", cB(t.Nonce), t.Amount, cB(t.AssetDefinition), t.VMVersion,
+			cB(t.IssuanceProgram), cBL(t.Arguments))
+	case *types.SpendInput:
+		ty = fmt.Sprintf("(Some (Spend %s %s %s))", cSC(&t.SpendCommitment), cB(t.SpendCommitmentSuffix), cBL(t.Arguments))
+	case *types.CoinbaseInput:
+		ty = fmt.Sprintf("(Some (Coinbase %s))", cB(t.Arbitrary))
+	case *types.VetoInput:
+		ty = fmt.Sprintf("(Some (Veto %s %s %s %s))", cSC(&t.SpendCommitment), cB(t.VetoCommitmentSuffix), cB(t.Vote), cBL(t.Arguments))
+	}
+	return fmt.Sprintf("(mkIn %d %s %s %s)", in.AssetVersion, ty, cB(in.CommitmentSuffix), cB(in.WitnessSuffix))
+}
+func zeroCommitment(o *types.TxOutput) bool {
+	return o.AssetId == nil && o.Amount == 0 && o.VMVersion == 0 && len(o.ControlProgram) == 0 && len(o.StateData) == 0
+}
+func cOutput(o *types.TxOutput) string {
+	ty := "OutOriginal"
+	if v, ok := o.TypedOutput.(*types.VoteOutput); ok {
+		ty = "(OutVote " + cB(v.Vote) + ")"
+	}
+	oc := "None"
+	if !zeroCommitment(o) {
+		oc = fmt.Sprintf("(Some (mkOC %s %d %d %s %s))", cB(assetBytes(o.AssetId)), o.Amount, o.VMVersion, cB(o.ControlProgram), cBL(o.StateData))
+	}
+	return fmt.Sprintf("(mkOut %d %s %s %s)", o.AssetVersion, ty, oc, cB(o.CommitmentSuffix))
+}
+func cTx(tx *types.TxData) string {
+	ins := make([]string, len(tx.Inputs))
+	for i, in := range tx.Inputs {
+		ins[i] = cInput(in)
+	}
+	outs := make([]string, len(tx.Outputs))
+	for i, o := range tx.Outputs {
+		outs[i] = cOutput(o)
+	}
+	return fmt.Sprintf("(mkTx %d %d %d [%s] [%s])", tx.Version, tx.SerializedSize, tx.TimeRange, strings.Join(ins, "; "), strings.Join(outs, "; "))
+}
+func cHeader(bh *types.BlockHeader) string {
+	sls := make([]string, len(bh.SupLinks))
+	for i, sl := range bh.SupLinks {
+		sigs := make([][]byte, len(sl.Signatures))
+		copy(sigs, sl.Signatures[:])
+		sls[i] = fmt.Sprintf("(mkSL %d %s %s)", sl.SourceHeight, cHash(sl.SourceHash), cBL(sigs))
+	}
+	return fmt.Sprintf("(mkBH %d %d %s %d %s %s [%s])", bh.Version, bh.Height, cHash(bh.PreviousBlockHash), bh.Timestamp,
+		cHash(bh.TransactionsMerkleRoot), cB(bh.BlockWitness), strings.Join(sls, "; "))
+}
+
+// ---------------------------------------------------------------- the property's field list (canonical dumps)
+
+func kB(b []byte) string { return fmt.Sprintf("%d:%x", len(b), b) }
+func kL(l [][]byte) string {
+	s := make([]string, len(l))
+	for i, b := range l {
+		s[i] = kB(b)
+	}
+	return fmt.Sprintf("%d[%s]", len(l), strings.Join(s, ","))
+}
+func kSC(sc *types.SpendCommitment) string {
+	return fmt.Sprintf("src=%x asset=%x amount=%d pos=%d vm=%d prog=%s state=%s", sc.SourceID.Bytes(), assetBytes(sc.AssetId),
+		sc.Amount, sc.SourcePosition, sc.VMVersion, kB(sc.ControlProgram), kL(sc.StateData))
+}
+
+// an input's commitment (no arguments, no suffixes)
+func keyInput(in *types.TxInput) string {
+	switch t := in.TypedInput.(type) {
+	case *types.IssuanceInput:
+		return fmt.Sprintf("issuance nonce=%s amount=%d def=%s vm=%d prog=%s", kB(t.Nonce), t.Amount, kB(t.AssetDefinition), t.VMVersion, kB(t.IssuanceProgram))
+	case *types.SpendInput:
+		return "spend " + kSC(&t.SpendCommitment)
+	case *types.CoinbaseInput:
+		return "coinbase " + kB(t.Arbitrary)
+	case *types.VetoInput:
+		return "veto " + kSC(&t.SpendCommitment) + " vote=" + kB(t.Vote)
+	}
+	return "nil"
+}
+
+func isUnspendable(prog []byte) bool { return len(prog) > 0 && prog[0] == 0x6a }
+
+// an output's asset, amount, program (with VM version), state data, kind and vote key;
+// effective: an unspendable output keeps asset and amount only
+func keyOutput(o *types.TxOutput, effective bool) string {
+	if effective && isUnspendable(o.ControlProgram) {
+		return fmt.Sprintf("retired asset=%x amount=%d", assetBytes(o.AssetId), o.Amount)
+	}
+	kind := "original"
+	if v, ok := o.TypedOutput.(*types.VoteOutput); ok {
+		kind = "vote=" + kB(v.Vote)
+	}
+	return fmt.Sprintf("%s asset=%x amount=%d vm=%d prog=%s state=%s", kind, assetBytes(o.AssetId), o.Amount, o.VMVersion, kB(o.ControlProgram), kL(o.StateData))
+}
+
+func keyTx(tx *types.TxData, effective bool) string {
+	var sb strings.Builder
+	fmt.Fprintf(&sb, "version=%d timerange=%d inputs=%d outputs=%d", tx.Version, tx.TimeRange, len(tx.Inputs), len(tx.Outputs))
+	for _, in := range tx.Inputs {
+		sb.WriteString("\n in " + keyInput(in))
+	}
+	for _, o := range tx.Outputs {
+		sb.WriteString("\n out " + keyOutput(o, effective))
+	}
+	return sb.String()
+}
+
+func keyHeader(bh *types.BlockHeader) string {
+	return fmt.Sprintf("version=%d height=%d prev=%x ts=%d root=%x", bh.Version, bh.Height, bh.PreviousBlockHash.Bytes(), bh.Timestamp, bh.TransactionsMerkleRoot.Bytes())
+}
+
+// ---------------------------------------------------------------- running the implementation
+
+type txInfo struct {
+	tx       *types.TxData
+	panicked bool
+	id       bc.Hash
+	inputs   []bc.Hash
+	spent    []bc.Hash
+	mux      bc.Hash
+	results  []bc.Hash
+	keyC     string
+	keyE     string
+}
+
+func mapTx(tx *types.TxData) (info *txInfo) {
+	info = &txInfo{tx: tx, keyC: keyTx(tx, false), keyE: keyTx(tx, true)}
+	defer func() {
+		if r := recover(); r != nil {
+			info.panicked = true
+		}
+	}()
+	m := types.MapTx(tx)
+	info.id = m.ID
+	info.inputs = append(info.inputs, m.InputIDs...)
+	info.spent = append(info.spent, m.SpentOutputIDs...)
+	for _, r := range m.ResultIds {
+		info.results = append(info.results, *r)
+	}
+	for id, e := range m.Entries {
+		if _, ok := e.(*bc.Mux); ok {
+			info.mux = id
+		}
+	}
+	return info
+}
+
+func sameHashes(a, b []bc.Hash) bool {
+	if len(a) != len(b) {
+		return false
+	}
+	for i := range a {
+		if a[i] != b[i] {
+			return false
+		}
+	}
+	return true
+}
+
+func (t *txInfo) obsCoq() string {
+	if t.panicked {
+		return "[]"
+	}
+	items := []string{cHash(t.id)}
+	for _, h := range t.inputs {
+		items = append(items, cHash(h))
+	}
+	items = append(items, "[]")
+	for _, h := range t.spent {
+		items = append(items, cHash(h))
+	}
+	items = append(items, "[]", cHash(t.mux))
+	for _, h := range t.results {
+		items = append(items, cHash(h))
+	}
+	return "[" + strings.Join(items, "; ") + "]"
+}
+
+// ---------------------------------------------------------------- single-field mutations
+
+const (
+	mCommitted  = 0 // a field the property lists: the id must change
+	mWitness    = 1 // arguments, witness suffixes, SerializedSize: the id must stay
+	mUndemanded = 2 // asset versions, commitment suffixes: the property says nothing
+)
+
+type mutation struct {
+	name  string
+	kind  int
+	apply func(tx *types.TxData)
+}
+
+func (g *gen) mutU64(x uint64) uint64 {
+	switch g.rng.Intn(4) {
+	case 0:
+		return x + 1
+	case 1:
+		return x - 1
+	case 2:
+		return x ^ (1 << uint(g.rng.Intn(64)))
+	default:
+		y := g.u64()
+		if y == x {
+			y = x + 256
+		}
+		return y
+	}
+}
+
+// always a different byte string
+func (g *gen) mutBytes(b []byte) []byte {
+	r := g.rng
+	if len(b) == 0 {
+		return r.Bytes(1 + r.Intn(3))
+	}
+	c := cp(b)
+	switch r.Intn(6) {
+	case 0:
+		return append(c, byte(r.Next()))
+	case 1:
+		return append(c, 0)
+	case 2:
+		return c[:len(c)-1]
+	case 3:
+		return c[1:]
+	default:
+		c[r.Intn(len(c))] ^= 1 << uint(r.Intn(8))
+		return c
+	}
+}
+
+// always a different list
+func (g *gen) mutList(l [][]byte) [][]byte {
+	r := g.rng
+	c := cpl(l)
+	if len(c) == 0 {
+		if r.Bool() {
+			return [][]byte{{}}
+		}
+		return [][]byte{r.Bytes(1 + r.Intn(3))}
+	}
+	switch r.Intn(6) {
+	case 0:
+		return append(c, []byte{})
+	case 1:
+		return append(c, r.Bytes(1+r.Intn(3)))
+	case 2:
+		return c[:len(c)-1]
+	case 3:
+		return c[1:]
+	case 4:
+		if len(c) >= 2 && string(c[0]) != string(c[len(c)-1]) {
+			c[0], c[len(c)-1] = c[len(c)-1], c[0]
+			return c
+		}
+		fallthrough
+	default:
+		i := r.Intn(len(c))
+		c[i] = g.mutBytes(c[i])
+		return c
+	}
+}
+
+func (g *gen) mutHash(h bc.Hash) bc.Hash {
+	b := h.Byte32()
+	b[g.rng.Intn(32)] ^= 1 << uint(g.rng.Intn(8))
+	return bc.NewHash(b)
+}
+
+func (g *gen) mutAsset(a *bc.AssetID) *bc.AssetID {
+	var h bc.Hash
+	if a != nil {
+		h = bc.Hash(*a)
+	}
+	n := bc.AssetID(g.mutHash(h))
+	return &n
+}
+
+func (g *gen) scMutations(pre string, get func(tx *types.TxData) *types.SpendCommitment) []mutation {
+	return []mutation{
+		{pre + ".SourceID", mCommitted, func(tx *types.TxData) { sc := get(tx); sc.SourceID = g.mutHash(sc.SourceID) }},
+		{pre + ".AssetId", mCommitted, func(tx *types.TxData) { sc := get(tx); sc.AssetId = g.mutAsset(sc.AssetId) }},
+		{pre + ".Amount", mCommitted, func(tx *types.TxData) { sc := get(tx); sc.Amount = g.mutU64(sc.Amount) }},
+		{pre + ".SourcePosition", mCommitted, func(tx *types.TxData) { sc := get(tx); sc.SourcePosition = g.mutU64(sc.SourcePosition) }},
+		{pre + ".VMVersion", mCommitted, func(tx *types.TxData) { sc := get(tx); sc.VMVersion = g.mutU64(sc.VMVersion) }},
+		{pre + ".ControlProgram", mCommitted, func(tx *types.TxData) { sc := get(tx); sc.ControlProgram = g.mutBytes(sc.ControlProgram) }},
+		{pre + ".StateData", mCommitted, func(tx *types.TxData) { sc := get(tx); sc.StateData = g.mutList(sc.StateData) }},
+	}
+}
+
+// every single-field mutation of tx
+func (g *gen) mutations(tx *types.TxData) []mutation {
+	ms := []mutation{
+		{"Version", mCommitted, func(t *types.TxData) { t.Version = g.mutU64(t.Version) }},
+		{"TimeRange", mCommitted, func(t *types.TxData) { t.TimeRange = g.mutU64(t.TimeRange) }},
+		{"SerializedSize", mWitness, func(t *types.TxData) { t.SerializedSize = g.mutU64(t.SerializedSize) }},
+	}
+	for i, in := range tx.Inputs {
+		i := i
+		pre := fmt.Sprintf("Inputs[%d]", i)
+		ms = append(ms,
+			mutation{pre + ".AssetVersion", mUndemanded, func(t *types.TxData) { t.Inputs[i].AssetVersion = g.mutU64(t.Inputs[i].AssetVersion) }},
+			mutation{pre + ".CommitmentSuffix", mUndemanded, func(t *types.TxData) { t.Inputs[i].CommitmentSuffix = g.mutBytes(t.Inputs[i].CommitmentSuffix) }},
+			mutation{pre + ".WitnessSuffix", mWitness, func(t *types.TxData) { t.Inputs[i].WitnessSuffix = g.mutBytes(t.Inputs[i].WitnessSuffix) }},
+			mutation{pre + ":removed", mCommitted, func(t *types.TxData) { t.Inputs = append(t.Inputs[:i:i], t.Inputs[i+1:]...) }},
+			mutation{pre + ":duplicated", mCommitted, func(t *types.TxData) {
+				ins := append([]*types.TxInput{}, t.Inputs[:i+1]...)
+				ins = append(ins, cloneInput(t.Inputs[i]))
+				t.Inputs = append(ins, t.Inputs[i+1:]...)
+			}})
+		if i+1 < len(tx.Inputs) {
+			ms = append(ms, mutation{pre + ":swapped-with-next", mCommitted, func(t *types.TxData) { t.Inputs[i], t.Inputs[i+1] = t.Inputs[i+1], t.Inputs[i] }})
+		}
+		switch in.TypedInput.(type) {
+		case *types.IssuanceInput:
+			p := pre + ".Issuance"
+			get := func(t *types.TxData) *types.IssuanceInput { return t.Inputs[i].TypedInput.(*types.IssuanceInput) }
+			ms = append(ms,
+				mutation{p + ".Nonce", mCommitted, func(t *types.TxData) { x := get(t); x.Nonce = g.mutBytes(x.Nonce) }},
+				mutation{p + ".Amount", mCommitted, func(t *types.TxData) { x := get(t); x.Amount = g.mutU64(x.Amount) }},
+				mutation{p + ".AssetDefinition", mCommitted, func(t *types.TxData) { x := get(t); x.AssetDefinition = g.mutBytes(x.AssetDefinition) }},
+				mutation{p + ".VMVersion", mCommitted, func(t *types.TxData) { x := get(t); x.VMVersion = g.mutU64(x.VMVersion) }},
+				mutation{p + ".IssuanceProgram", mCommitted, func(t *types.TxData) { x := get(t); x.IssuanceProgram = g.mutBytes(x.IssuanceProgram) }},
+				mutation{p + ".Arguments", mWitness, func(t *types.TxData) { x := get(t); x.Arguments = g.mutList(x.Arguments) }})
+		case *types.SpendInput:
+			p := pre + ".Spend"
+			get := func(t *types.TxData) *types.SpendInput { return t.Inputs[i].TypedInput.(*types.SpendInput) }
+			ms = append(ms, g.scMutations(p, func(t *types.TxData) *types.SpendCommitment { return &get(t).SpendCommitment })...)
+			ms = append(ms,
+				mutation{p + ".Arguments", mWitness, func(t *types.TxData) { x := get(t); x.Arguments = g.mutList(x.Arguments) }},
+				mutation{p + ".SpendCommitmentSuffix", mUndemanded, func(t *types.TxData) { x := get(t); x.SpendCommitmentSuffix = g.mutBytes(x.SpendCommitmentSuffix) }},
+				mutation{p + ":becomes-veto", mCommitted, func(t *types.TxData) {
+					x := get(t)
+					t.Inputs[i].TypedInput = &types.VetoInput{VetoCommitmentSuffix: x.SpendCommitmentSuffix, Arguments: x.Arguments, SpendCommitment: x.SpendCommitment}
+				}})
+		case *types.CoinbaseInput:
+			ms = append(ms, mutation{pre + ".Coinbase.Arbitrary", mCommitted, func(t *types.TxData) {
+				x := t.Inputs[i].TypedInput.(*types.CoinbaseInput)
+				x.Arbitrary = g.mutBytes(x.Arbitrary)
+			}})
+		case *types.VetoInput:
+			p := pre + ".Veto"
+			get := func(t *types.TxData) *types.VetoInput { return t.Inputs[i].TypedInput.(*types.VetoInput) }
+			ms = append(ms, g.scMutations(p, func(t *types.TxData) *types.SpendCommitment { return &get(t).SpendCommitment })...)
+			ms = append(ms,
+				mutation{p + ".Vote", mCommitted, func(t *types.TxData) { x := get(t); x.Vote = g.mutBytes(x.Vote) }},
+				mutation{p + ".Arguments", mWitness, func(t *types.TxData) { x := get(t); x.Arguments = g.mutList(x.Arguments) }},
+				mutation{p + ".VetoCommitmentSuffix", mUndemanded, func(t *types.TxData) { x := get(t); x.VetoCommitmentSuffix = g.mutBytes(x.VetoCommitmentSuffix) }},
+				mutation{p + ":becomes-spend", mCommitted, func(t *types.TxData) {
+					x := get(t)
+					t.Inputs[i].TypedInput = &types.SpendInput{SpendCommitmentSuffix: x.VetoCommitmentSuffix, Arguments: x.Arguments, SpendCommitment: x.SpendCommitment}
+				}})
+		}
+	}
+	for i, o := range tx.Outputs {
+		i := i
+		pre := fmt.Sprintf("Outputs[%d]", i)
+		ms = append(ms,
+			mutation{pre + ".AssetVersion", mUndemanded, func(t *types.TxData) { t.Outputs[i].AssetVersion = g.mutU64(t.Outputs[i].AssetVersion) }},
+			mutation{pre + ".CommitmentSuffix", mUndemanded, func(t *types.TxData) { t.Outputs[i].CommitmentSuffix = g.mutBytes(t.Outputs[i].CommitmentSuffix) }},
+			mutation{pre + ".AssetId", mCommitted, func(t *types.TxData) { t.Outputs[i].AssetId = g.mutAsset(t.Outputs[i].AssetId) }},
+			mutation{pre + ".Amount", mCommitted, func(t *types.TxData) { t.Outputs[i].Amount = g.mutU64(t.Outputs[i].Amount) }},
+			mutation{pre + ".VMVersion", mCommitted, func(t *types.TxData) { t.Outputs[i].VMVersion = g.mutU64(t.Outputs[i].VMVersion) }},
+			mutation{pre + ".ControlProgram", mCommitted, func(t *types.TxData) { t.Outputs[i].ControlProgram = g.mutBytes(t.Outputs[i].ControlProgram) }},
+			mutation{pre + ".StateData", mCommitted, func(t *types.TxData) { t.Outputs[i].StateData = g.mutList(t.Outputs[i].StateData) }},
+			mutation{pre + ":removed", mCommitted, func(t *types.TxData) { t.Outputs = append(t.Outputs[:i:i], t.Outputs[i+1:]...) }},
+			mutation{pre + ":duplicated", mCommitted, func(t *types.TxData) {
+				outs := append([]*types.TxOutput{}, t.Outputs[:i+1]...)
+				outs = append(outs, cloneOutput(t.Outputs[i]))
+				t.Outputs = append(outs, t.Outputs[i+1:]...)
+			}})
+		if i+1 < len(tx.Outputs) {
+			ms = append(ms, mutation{pre + ":swapped-with-next", mCommitted, func(t *types.TxData) { t.Outputs[i], t.Outputs[i+1] = t.Outputs[i+1], t.Outputs[i] }})
+		}
+		if _, ok := o.TypedOutput.(*types.VoteOutput); ok {
+			ms = append(ms,
+				mutation{pre + ".Vote", mCommitted, func(t *types.TxData) {
+					v := t.Outputs[i].TypedOutput.(*types.VoteOutput)
+					v.Vote = g.mutBytes(v.Vote)
+				}},
+				mutation{pre + ":becomes-original", mCommitted, func(t *types.TxData) { t.Outputs[i].TypedOutput = originalTyped }})
+		} else {
+			ms = append(ms, mutation{pre + ":becomes-vote", mCommitted, func(t *types.TxData) {
+				var vote []byte
+				if g.rng.Bool() {
+					vote = g.rng.Bytes(64)
+				}
+				t.Outputs[i].TypedOutput = &types.VoteOutput{Vote: vote}
+			}})
+		}
+	}
+	return ms
+}
+
+// field name without the index, for the statistics
+func fieldClass(name string) string {
+	var sb strings.Builder
+	skip := false
+	for _, ch := range name {
+		switch {
+		case ch == '[':
+			skip = true
+		case ch == ']':
+			skip = false
+		case !skip:
+			sb.WriteRune(ch)
+		}
+	}
+	return sb.String()
+}
+
+// ---------------------------------------------------------------- the check
+
+type checker struct {
+	c       *Ctx
+	g       *gen
+	seen    map[bc.Hash]*txInfo // id -> first transaction with that id (>= 1 output)
+	known   []OracleFailure     // witnesses of the recorded finding, reported last (capped)
+	nKnown  int
+	nFail   int
+	maxLit  int
+	nModel  int
+	samples int
+}
+
+func short(s string) string {
+	if len(s) > 5000 {
+		return s[:5000] + "..."
+	}
+	return s
+}
+
+func (k *checker) fail(what string, desc map[string]interface{}) {
+	k.nFail++
+	k.c.Stats.Fail(what, desc)
+}
+
+func (k *checker) knownFinding(what string, desc map[string]interface{}) {
+	k.nKnown++
+	k.c.Stats.Count("oracle.retirement-data-not-committed")
+	if len(k.known) < 3 {
+		k.known = append(k.known, OracleFailure{What: what, Case: desc})
+	}
+}
+
+func (k *checker) addCase(model, observed string, desc map[string]interface{}) {
+	id := k.c.Cases.Add(model, observed)
+	k.c.Stats.CaseIndex[fmt.Sprint(id)] = desc
+	k.c.Stats.Count("model_evaluated")
+	k.nModel++
+}
+
+// two transactions with different listed content must not share an id
+func (k *checker) compare(a, b *txInfo, how string) {
+	if a.panicked || b.panicked || (len(a.tx.Outputs) == 0 && len(b.tx.Outputs) == 0) {
+		return
+	}
+	desc := map[string]interface{}{"how": how, "tx_a": short(cTx(a.tx)), "tx_b": short(cTx(b.tx)), "id_a": a.id.String(), "id_b": b.id.String()}
+	if a.keyC == b.keyC {
+		if a.id != b.id || !sameHashes(a.inputs, b.inputs) || !sameHashes(a.spent, b.spent) || !sameHashes(a.results, b.results) {
+			k.fail("class=id-depends-on-witness: "+how+": only witness data differs (arguments, witness suffixes, SerializedSize) and Tx.ID / InputIDs / SpentOutputIDs / ResultIds changed", desc)
+		}
+		return
+	}
+	if a.id != b.id {
+		return
+	}
+	if a.keyE == b.keyE {
+		k.knownFinding("class=retirement-data-not-committed: "+how+": program tail / VM version / state data / vote key / kind of an unspendable (OP_FAIL) output differ and Tx.ID is the same", desc)
+		return
+	}
+	k.fail("class=id-not-committing: "+how+": a consensus field differs and Tx.ID is the same", desc)
+}
+
+func (k *checker) doTx(tx *types.TxData, kind string, toCoq bool) {
+	st := k.c.Stats
+	base := mapTx(tx)
+	lit := cTx(tx)
+	desc := map[string]interface{}{"kind": kind, "tx": short(lit)}
+	st.Case("tx|"+hk(lit), len(tx.Inputs) >= 1 && len(tx.Outputs) >= 1 && !base.panicked)
+	k.countTx(tx, base)
+	if toCoq && len(lit) < k.maxLit {
+		k.addCase("obs_tx "+lit, base.obsCoq(), desc)
+	}
+	if base.panicked {
+		return
+	}
+	desc["id"] = base.id.String()
+	if k.samples < 3 && len(tx.Inputs) >= 2 && len(tx.Outputs) >= 2 && len(lit) < 3000 {
+		k.samples++
+		st.Sample(desc)
+	}
+	// across the run
+	if len(tx.Outputs) > 0 {
+		if prev, ok := k.seen[base.id]; ok {
+			k.compare(prev, base, "two generated transactions")
+		} else {
+			k.seen[base.id] = base
+		}
+	}
+	// every single-field mutation
+	ms := k.g.mutations(tx)
+	if len(ms) > 150 { // a large transaction: a random sample of its mutations
+		for i := range ms {
+			j := i + k.g.rng.Intn(len(ms)-i)
+			ms[i], ms[j] = ms[j], ms[i]
+		}
+		ms = ms[:60]
+		st.Count("tx.mutations-sampled")
+	}
+	pick := -1
+	if toCoq && len(ms) > 0 {
+		pick = k.g.rng.Intn(len(ms))
+	}
+	for mi, m := range ms {
+		mt := cloneTx(tx)
+		m.apply(mt)
+		mu := mapTx(mt)
+		cls := fieldClass(m.name)
+		st.Count("mutation." + cls)
+		if mu.panicked {
+			k.fail("class=panic: MapTx panicked on the mutant "+m.name, map[string]interface{}{"tx": short(lit), "mutant": short(cTx(mt))})
+			continue
+		}
+		switch {
+		case m.kind == mUndemanded:
+			if mu.id == base.id {
+				st.Count("undemanded.id-unchanged")
+			} else {
+				st.Count("undemanded.id-changed")
+			}
+		case mu.keyC == base.keyC && m.kind == mCommitted:
+			st.Count("mutation.no-op")
+		default:
+			if m.kind == mWitness {
+				st.Count("oracle.witness-mutants")
+			} else {
+				st.Count("oracle.committed-mutants")
+			}
+			k.compare(base, mu, "single-field mutation "+m.name)
+		}
+		if mi == pick {
+			if l2 := cTx(mt); len(l2) < k.maxLit {
+				k.addCase("obs_tx "+l2, mu.obsCoq(), map[string]interface{}{"kind": "mutant " + m.name + " of " + kind, "tx": short(l2), "id": mu.id.String()})
+			}
+		}
+	}
+}
+
+func bucket(n int) string {
+	switch {
+	case n <= 3:
+		return fmt.Sprint(n)
+	case n <= 6:
+		return "4-6"
+	case n <= 19:
+		return "7-19"
+	default:
+		return "20+"
+	}
+}
+
+func (k *checker) countTx(tx *types.TxData, info *txInfo) {
+	st := k.c.Stats
+	st.Count("tx.inputs." + bucket(len(tx.Inputs)))
+	st.Count("tx.outputs." + bucket(len(tx.Outputs)))
+	if info.panicked {
+		st.Count("tx.result.panic")
+	} else {
+		st.Count("tx.result.mapped")
+	}
+	for _, in := range tx.Inputs {
+		switch t := in.TypedInput.(type) {
+		case *types.IssuanceInput:
+			st.Count("input.issuance")
+			if len(t.AssetDefinition) > 0 {
+				st.Count("input.issuance.with-asset-definition")
+			}
+		case *types.SpendInput:
+			st.Count("input.spend")
+			if len(t.StateData) > 0 {
+				st.Count("input.spend.with-state-data")
+			}
+			if len(t.SpendCommitmentSuffix) > 0 {
+				st.Count("input.spend.with-commitment-suffix")
+			}
+		case *types.CoinbaseInput:
+			st.Count("input.coinbase")
+		case *types.VetoInput:
+			st.Count("input.veto")
+		default:
+			st.Count("input.nil-typed")
+		}
+		if len(in.WitnessSuffix) > 0 {
+			st.Count("input.with-witness-suffix")
+		}
+		if len(in.Arguments()) > 0 {
+			st.Count("input.with-arguments")
+		}
+	}
+	for _, o := range tx.Outputs {
+		switch {
+		case zeroCommitment(o):
+			st.Count("output.no-commitment")
+		case isUnspendable(o.ControlProgram):
+			st.Count("output.unspendable")
+		default:
+			if _, ok := o.TypedOutput.(*types.VoteOutput); ok {
+				st.Count("output.vote")
+			} else {
+				st.Count("output.original")
+			}
+		}
+		if len(o.StateData) > 0 {
+			st.Count("output.with-state-data")
+		}
+	}
+}
+
+// headers: every field
+func (k *checker) doHeader(bh *types.BlockHeader, toCoq bool) {
+	st := k.c.Stats
+	g := k.g
+	h0 := bh.Hash()
+	lit := cHeader(bh)
+	desc := map[string]interface{}{"kind": "header", "header": short(lit), "hash": h0.String()}
+	st.Case("header|"+hk(lit), len(bh.SupLinks) >= 1 || len(bh.BlockWitness) > 0)
+	st.Count("header.suplinks." + bucket(len(bh.SupLinks)))
+	if toCoq && len(lit) < k.maxLit {
+		k.addCase("obs_header "+lit, "["+cHash(h0)+"]", desc)
+	}
+	type hm struct {
+		name      string
+		committed bool
+		apply     func(h *types.BlockHeader)
+	}
+	hms := []hm{
+		{"Version", true, func(h *types.BlockHeader) { h.Version = g.mutU64(h.Version) }},
+		{"Height", true, func(h *types.BlockHeader) { h.Height = g.mutU64(h.Height) }},
+		{"PreviousBlockHash", true, func(h *types.BlockHeader) { h.PreviousBlockHash = g.mutHash(h.PreviousBlockHash) }},
+		{"Timestamp", true, func(h *types.BlockHeader) { h.Timestamp = g.mutU64(h.Timestamp) }},
+		{"TransactionsMerkleRoot", true, func(h *types.BlockHeader) { h.TransactionsMerkleRoot = g.mutHash(h.TransactionsMerkleRoot) }},
+		{"BlockWitness", false, func(h *types.BlockHeader) { h.BlockWitness = g.mutBytes(h.BlockWitness) }},
+		{"SupLinks:added", false, func(h *types.BlockHeader) { h.SupLinks = append(h.SupLinks, g.supLink()) }},
+		{"SupLinks:cleared", false, func(h *types.BlockHeader) { h.SupLinks = nil }},
+	}
+	if len(bh.SupLinks) > 0 {
+		hms = append(hms,
+			hm{"SupLinks[0].SourceHash", false, func(h *types.BlockHeader) { h.SupLinks[0].SourceHash = g.mutHash(h.SupLinks[0].SourceHash) }},
+			hm{"SupLinks[0].SourceHeight", false, func(h *types.BlockHeader) { h.SupLinks[0].SourceHeight = g.mutU64(h.SupLinks[0].SourceHeight) }},
+			hm{"SupLinks[0].Signatures", false, func(h *types.BlockHeader) {
+				h.SupLinks[0].Signatures[g.rng.Intn(len(h.SupLinks[0].Signatures))] = g.rng.Bytes(64)
+			}})
+	}
+	for _, m := range hms {
+		mh := cloneHeader(bh)
+		m.apply(mh)
+		h1 := mh.Hash()
+		st.Count("header-mutation." + m.name)
+		d := map[string]interface{}{"header": short(lit), "mutant": short(cHeader(mh)), "field": m.name, "hash": h0.String()}
+		same := keyHeader(mh) == keyHeader(bh)
+		if m.committed && same {
+			continue
+		}
+		if same && h1 != h0 {
+			k.fail("class=id-depends-on-witness: block header: only "+m.name+" differs and BlockHeader.Hash() changed", d)
+		}
+		if !same && h1 == h0 {
+			k.fail("class=id-not-committing: block header: "+m.name+" differs and BlockHeader.Hash() is the same", d)
+		}
+	}
+}
+
+// blocks: the header carries TxMerkleRoot(txs); any change of the id list must change the hash
+func (k *checker) doBlock() {
+	st := k.c.Stats
+	g := k.g
+	n := 1 + g.rng.Intn(6)
+	var txs []*types.Tx
+	for len(txs) < n {
+		t := g.tx()
+		if mapTx(t).panicked || len(t.Outputs) == 0 {
+			continue
+		}
+		txs = append(txs, types.NewTx(*t))
+	}
+	bh := g.header()
+	hashOf := func(l []*types.Tx) (bc.Hash, bool) {
+		var ids []*bc.Tx
+		for _, t := range l {
+			ids = append(ids, t.Tx)
+		}
+		root, err := types.TxMerkleRoot(ids)
+		if err != nil {
+			return bc.Hash{}, false
+		}
+		h := cloneHeader(bh)
+		h.TransactionsMerkleRoot = root
+		return h.Hash(), true
+	}
+	idList := func(l []*types.Tx) string {
+		s := make([]string, len(l))
+		for i, t := range l {
+			s[i] = t.ID.String()
+		}
+		return strings.Join(s, ",")
+	}
+	h0, ok := hashOf(txs)
+	if !ok {
+		k.fail("class=merkle-error: TxMerkleRoot failed", map[string]interface{}{"ids": idList(txs)})
+		return
+	}
+	st.Count("block.transactions." + bucket(n))
+	st.Case("block|"+idList(txs), n >= 2)
+	try := func(name string, l []*types.Tx) {
+		st.Count("block-mutation." + name)
+		if idList(l) == idList(txs) {
+			st.Count("block-mutation.no-op")
+			return
+		}
+		h1, ok := hashOf(l)
+		if ok && h1 == h0 {
+			k.fail("class=id-not-committing: block: transaction id list changed ("+name+") and the hash of the header carrying TxMerkleRoot is the same",
+				map[string]interface{}{"ids": idList(txs), "mutant_ids": idList(l), "hash": h0.String(), "header": short(cHeader(bh))})
+		}
+	}
+	for i := range txs {
+		// a committed field of transaction i changes
+		mt := cloneTx(&txs[i].TxData)
+		mt.TimeRange = g.mutU64(mt.TimeRange)
+		l := append([]*types.Tx{}, txs...)
+		l[i] = types.NewTx(*mt)
+		try("tx-field-changed", l)
+		// witness data of transaction i changes: same id list, same hash
+		wt := cloneTx(&txs[i].TxData)
+		wt.SerializedSize++
+		for _, in := range wt.Inputs {
+			in.WitnessSuffix = g.mutBytes(in.WitnessSuffix)
+		}
+		lw := append([]*types.Tx{}, txs...)
+		lw[i] = types.NewTx(*wt)
+		if hw, ok := hashOf(lw); !ok || hw != h0 {
+			k.fail("class=id-depends-on-witness: block: only witness data of a transaction differs and the block hash changed",
+				map[string]interface{}{"ids": idList(txs), "tx": short(cTx(&txs[i].TxData)), "mutant": short(cTx(wt))})
+		}
+		st.Count("block-mutation.tx-witness-changed")
+		l = append(append([]*types.Tx{}, txs[:i]...), txs[i+1:]...)
+		try("tx-removed", l)
+		l = append(append(append([]*types.Tx{}, txs[:i+1]...), txs[i]), txs[i+1:]...)
+		try("tx-duplicated", l)
+		if i+1 < len(txs) {
+			l = append([]*types.Tx{}, txs...)
+			l[i], l[i+1] = l[i+1], l[i]
+			try("tx-swapped", l)
+		}
+	}
+}
+
+func corpusTx(prog []byte, state [][]byte) *types.TxData {
+	a := bc.AssetID{V0: 1}
+	in := types.NewSpendInput(nil, bc.Hash{V0: 9}, a, 10, 0, []byte{0x51}, nil)
+	out := types.NewOriginalTxOutput(a, 10, prog, state)
+	return &types.TxData{Version: 1, Inputs: []*types.TxInput{in}, Outputs: []*types.TxOutput{out}}
+}
+
+func run(c *Ctx) error {
+	g := &gen{rng: c.Rng}
+	k := &checker{c: c, g: g, seen: map[bc.Hash]*txInfo{}, maxLit: 60000}
+	st := c.Stats
+	c.Cases.Shard = 8
+	header := "From Coq Require Import List NArith Bool Uint63.\nFrom Verif Require Import Outcome Cmp.\nFrom C04 Require Import Model.\nFrom C03 Require Import Model Run.\nImport ListNotations.\nOpen Scope N_scope.\n"
+	st.Rule = "TxData of 0-5 inputs (issuance with asset definition / spend / veto / coinbase, rarely a nil typed input or a repeated input) and 0-5 outputs (original / vote / unspendable incl. BCRP registrations / no commitment), occasionally 20-140 inputs and 100-160 outputs; state data, vote keys, arguments, 0-5 bytes on every suffix field, any uint64 for numbers (boundary grid up to 2^64-1), stale SerializedSize; every single-field mutation of each (every number, hash, byte string and list of every input and output, kind changes, removal, duplication, swap); block headers with witness and 0-3 sup links and every field mutated; blocks of 1-6 transactions with the id list mutated.  A transaction case is non-trivial when it has at least one input and one output and MapTx does not panic, a header when it has a witness or a sup link, a block when it has at least two transactions.  Oracle: listed content changed => id changes; only witness data changed => Tx.ID, InputIDs, SpentOutputIDs, ResultIds (block: Hash()) unchanged; two different listed contents never share an id across the run."
+
+	// ---- corpus: the recorded finding (BCRP registrations of different contracts, one id)
+	w1 := corpusTx([]byte{0x6a, 0x04, 'b', 'c', 'r', 'p', 0x01, 0x01, 0x01, 0x51}, nil)
+	w2 := corpusTx([]byte{0x6a, 0x04, 'b', 'c', 'r', 'p', 0x01, 0x01, 0x01, 0x52}, [][]byte{{1}})
+	i1, i2 := mapTx(w1), mapTx(w2)
+	k.compare(i1, i2, "corpus-retirement (BCRP registration of contract 51 vs contract 52 with state data [01])")
+	k.addCase("obs_tx "+cTx(w1), i1.obsCoq(), map[string]interface{}{"kind": "corpus-retirement", "tx": cTx(w1), "id": i1.id.String()})
+	k.addCase("obs_tx "+cTx(w2), i2.obsCoq(), map[string]interface{}{"kind": "corpus-retirement", "tx": cTx(w2), "id": i2.id.String()})
+	st.Case("corpus-retirement", true)
+
+	// ---- transactions
+	nCoq := c.N(26, 220)
+	for i := 0; i < nCoq; i++ {
+		g.small = true
+		k.doTx(g.tx(), "generated-small", true)
+	}
+	g.small = false
+	nTx := c.N(1500, 12000)
+	for i := 0; i < nTx; i++ {
+		k.doTx(g.tx(), "generated", false)
+	}
+
+	// ---- headers
+	nHdrCoq := c.N(30, 200)
+	nHdr := c.N(1500, 10000)
+	for i := 0; i < nHdr; i++ {
+		k.doHeader(g.header(), i < nHdrCoq)
+	}
+
+	// ---- blocks
+	nBlk := c.N(300, 2500)
+	for i := 0; i < nBlk; i++ {
+		k.doBlock()
+	}
+
+	// witnesses of the recorded finding last: hlib keeps only the first failures
+	for _, f := range k.known {
+		st.Fail(f.What, f.Case)
+	}
+	st.Extra["retirement_witnesses_seen"] = k.nKnown
+	st.Extra["other_oracle_failures"] = k.nFail
+	if st.Distribution["oracle.committed-mutants"] < 100 || st.Distribution["oracle.witness-mutants"] < 50 {
+		return fmt.Errorf("degenerate mutation stream: %d committed, %d witness mutants", st.Distribution["oracle.committed-mutants"], st.Distribution["oracle.witness-mutants"])
+	}
+	return c.Cases.Write(c.Out, header, "list bytes", "obs_eqb")
 }
